@@ -24,7 +24,8 @@ TYPES = ('response', 'stream', 'channel', 'fire_and_forget', 'metadata_push')
 SIGS = ('none', 'payload', 'cm', 'both', 'typed', 'cm-first', 'ann-cm-first', 'typed-then-raw', 'ann-payload', 'three')
 ROUTES = ('a', 'b', 'c', 'ab', 'A', 'noroute', 'emptytags')  # 'ab' and 'A' are never registered: route names match exactly
 POSITIONS = ('first', 'after-generic', 'after-auth')
-AUTHS = ('no-verifier', 'missing', 'rejected', 'simple-ok', 'bearer-ok')
+AUTHS = ('no-verifier', 'missing', 'rejected', 'rejected-empty-bearer', 'rejected-empty-simple', 'simple-ok', 'bearer-ok')
+REJECTED = ('missing', 'rejected', 'rejected-empty-bearer', 'rejected-empty-simple')
 
 
 def bounds(tier):
@@ -130,6 +131,7 @@ def metadata_for(route, position, auth):
     from rsocket.extensions.routing import RoutingMetadata
     items = []
     auth_item = {'missing': None, 'no-verifier': None, 'rejected': authenticate_simple('bad', 'x'), 'simple-ok': authenticate_simple('ok', 'pw'),
+                 'rejected-empty-bearer': authenticate_bearer(''), 'rejected-empty-simple': authenticate_simple('', ''),
                  'bearer-ok': authenticate_bearer('ok')}[auth]
     generic = metadata_item(b'zz', WellKnownMimeTypes.TEXT_PLAIN)
     r = None
@@ -149,7 +151,7 @@ def metadata_for(route, position, auth):
 
 def expected(table, rtype, route, auth):
     """Reference router: set of acceptable (type, name) handlers that may run (empty tuple = none)."""
-    if auth in ('missing', 'rejected'):
+    if auth in REJECTED:
         return [None]
     regs = {}
     for t in TYPES:
@@ -221,7 +223,7 @@ def direct_case(table, sig, rtype, route, position, auth, part):
     if exp != [(rtype, route)]:
         part.nontriv((tuple(sorted(wit['table'].items(), key=str)), rtype, route, position, auth, sig))
     if got not in exp:
-        if auth in ('missing', 'rejected'):
+        if auth in REJECTED:
             rule, sub = 'auth-gate', '%s | %s' % (auth, rtype)
         elif got == 'many':
             rule, sub = 'exact-dispatch', 'several-handlers | %s' % rtype
@@ -326,7 +328,7 @@ def wire_case(table, rtype, route, auth, flavour, part):
         ctx = '%s/%s auth=%s' % (rtype, route, auth)
         part.state(('wire', rtype, route, auth, got))
         if got not in exp:
-            rule = 'auth-gate' if auth in ('missing', 'rejected') else 'exact-dispatch'
+            rule = 'auth-gate' if auth in REJECTED else 'exact-dispatch'
             part.violate('C19.' + rule, 'C19.%s | wire | %s' % (rule, rtype), 'request %s: handlers run %s, reference allows %s' % (ctx, who, exp), wit)
         if got is None or got == 'many':
             if rtype == 'response' and res['f']['state'] != 'error':
